@@ -16,4 +16,5 @@ go build -tags verif -o .bin/trigcheck ./cmd/trigcheck
 go build -tags verif -o .bin/svccheck ./cmd/svccheck
 .bin/rewrite -maporder keyperimpl/shutterservice -vos "" -out .gen/overlay-synccheck
 go build -tags verif -overlay .gen/overlay-synccheck/overlay.json -o .bin/synccheck ./cmd/synccheck
+go build -tags verif -o .bin/dkgcheck ./cmd/dkgcheck
 echo setup ok
